@@ -22,7 +22,7 @@ LEVEL_NOTE = "Trusted: seam completeness for lock access; planted IDs are >= 50 
 RULE = ("case index -> configuration point (index mod 216, complete product) or error configuration; world seeded per case; 1 run, "
         "+1 run after 'delete top statement, add one' for lock-using edit points. Non-trivial = every case (each is a distinct "
         "(point, world)); distinct = case index.")
-PROBES = ["lock_with_long_head", "stale_lock_tmp", "cache_on_partial_failure", "cache_off_abnormal_ending", "cache_off", "cache_omitted", "lock_valid", "lock_corrupt", "lock_empty", "lock_absent", "structured_omitted",
+PROBES = ["config_is_symlink", "lock_with_long_head", "stale_lock_tmp", "cache_on_partial_failure", "cache_off_abnormal_ending", "cache_off", "cache_omitted", "lock_valid", "lock_corrupt", "lock_empty", "lock_absent", "structured_omitted",
           "extensions_omitted", "error_config", "second_run"]
 ASSUMPTIONS = ["fault-free runs"]
 DEADLINE = {"quick": 200, "thorough": 3000}
@@ -83,6 +83,8 @@ def build_world(rng, use_cache, lockstate, structured, exts):
         wm["lock"] = rng.choice(CORRUPT)
     elif lockstate == "empty":
         wm["lock"] = b""
+    if rng.random() < 0.1:
+        wm["cfg_link"] = True       # the configuration file is a symbolic link to a shared file elsewhere (world._wm_world)
     if rng.random() < 0.12:
         # what a run that died while writing the lock leaves behind, next to whatever lock state this point has
         wm["extra"]["proj/Breadlog.lock.tmp"] = {"t": "f", "mode": 0o644, "data": rng.choice(
@@ -344,6 +346,8 @@ def run_case(rng, idx, tier, ctx):
         wm = build_world(rng, use_cache, lockstate, structured, exts)
         ctx.probes[{True: "cache_on", None: "cache_omitted", False: "cache_off"}[use_cache]] += 1
         ctx.probes["lock_" + lockstate] += 1
+        if wm.get("cfg_link"):
+            ctx.probes["config_is_symlink"] += 1
         if wm.get("long_lock"):
             ctx.probes["lock_with_long_head"] += 1
         if "proj/Breadlog.lock.tmp" in wm["extra"]:
